@@ -18,8 +18,24 @@ use vh::*;
 const S: f64 = 10000.0;
 const TIGHT: f64 = 1e-24;
 
-/// fixed-point matrix (rows) + "all entries finite and inside the grid"
-fn mat(a: &ArrayView2<f64>, fin: &mut bool) -> Value {
+/// `fin`: every number is finite and inside the grid (|v| < 2^30 / S); `nan`: some number is NaN or infinite.
+/// A number outside the grid is logged as 0 with `fin = false`.
+struct Flags {
+    fin: bool,
+    nan: bool,
+}
+impl Flags {
+    fn new() -> Self {
+        Flags { fin: true, nan: false }
+    }
+    fn stamp(&self, e: &mut Value) {
+        e["fin"] = json!(self.fin);
+        e["nan"] = json!(self.nan);
+    }
+}
+
+/// fixed-point matrix (rows)
+fn mat(a: &ArrayView2<f64>, fin: &mut Flags) -> Value {
     Value::Array(
         a.outer_iter()
             .map(|r| {
@@ -28,7 +44,8 @@ fn mat(a: &ArrayView2<f64>, fin: &mut bool) -> Value {
                         .map(|v| {
                             let x = (v * S).round();
                             if !v.is_finite() || x.abs() >= 1073741824.0 {
-                                *fin = false;
+                                fin.fin = false;
+                                fin.nan |= !v.is_finite();
                                 json!(0)
                             } else {
                                 json!(x as i64)
@@ -87,7 +104,7 @@ fn tol_value(t: &str) -> Option<f64> {
 }
 
 /// a serialised 1-D ndarray field of the model ({"v":1,"dim":[n],"data":[..]})
-fn serde_vec(model: &Value, field: &str, fin: &mut bool) -> Value {
+fn serde_vec(model: &Value, field: &str, fin: &mut Flags) -> Value {
     let d = model.get(field).and_then(|a| a.get("data")).and_then(|d| d.as_array());
     match d {
         Some(xs) => Value::Array(
@@ -96,7 +113,8 @@ fn serde_vec(model: &Value, field: &str, fin: &mut bool) -> Value {
                     let v = x.as_f64().unwrap_or(f64::NAN);
                     let y = (v * S).round();
                     if !v.is_finite() || y.abs() >= 1073741824.0 {
-                        *fin = false;
+                        fin.fin = false;
+                        fin.nan |= !v.is_finite();
                         json!(0)
                     } else {
                         json!(y as i64)
@@ -105,7 +123,8 @@ fn serde_vec(model: &Value, field: &str, fin: &mut bool) -> Value {
                 .collect(),
         ),
         None => {
-            *fin = false;
+            fin.fin = false;
+            fin.nan = true;
             json!([])
         }
     }
@@ -133,7 +152,7 @@ macro_rules! run_generic {
             Err(e) => $ev.push(fit_event(Err(&e))),
             Ok(m) => {
                 $ev.push(fit_event(Ok(())));
-                let mut fin = true;
+                let mut fin = Flags::new();
                 let (xw, yw) = m.weights();
                 let (xl, yl) = m.loadings();
                 let (xr, yr) = m.rotations();
@@ -149,34 +168,34 @@ macro_rules! run_generic {
                     "xmean": serde_vec(&sj, "x_mean", &mut fin), "xstd": serde_vec(&sj, "x_std", &mut fin),
                     "ymean": serde_vec(&sj, "y_mean", &mut fin), "ystd": serde_vec(&sj, "y_std", &mut fin)});
                 let mut e = e;
-                e["fin"] = json!(fin);
+                fin.stamp(&mut e);
                 $ev.push(e);
                 // transform of the training data, and back
                 let tr = m.transform(DatasetBase::new(ds.records().view(), ds.targets().view()));
-                let mut fin = true;
+                let mut fin = Flags::new();
                 let mut e = json!({"ev": "transform", "st": shape(&tr.records().view()), "su": shape(&tr.targets().view()),
                     "t": mat(&tr.records().view(), &mut fin), "u": mat(&tr.targets().view(), &mut fin)});
-                e["fin"] = json!(fin);
+                fin.stamp(&mut e);
                 $ev.push(e);
                 let back = m.inverse_transform(DatasetBase::new(tr.records().view(), tr.targets().view()));
-                let mut fin = true;
+                let mut fin = Flags::new();
                 let mut e = json!({"ev": "inverse", "sx": shape(&back.records().view()), "sy": shape(&back.targets().view()),
                     "x": mat(&back.records().view(), &mut fin), "y": mat(&back.targets().view(), &mut fin)});
-                e["fin"] = json!(fin);
+                fin.stamp(&mut e);
                 $ev.push(e);
                 let pr: Array2<f64> = m.predict(ds.records());
-                let mut fin = true;
+                let mut fin = Flags::new();
                 let mut e = json!({"ev": "predict", "sy": shape(&pr.view()), "y": mat(&pr.view(), &mut fin)});
-                e["fin"] = json!(fin);
+                fin.stamp(&mut e);
                 $ev.push(e);
                 // unseen rows
                 let zds: &DatasetBase<Array2<f64>, Array2<f64>> = $zds;
                 let tz = m.transform(DatasetBase::new(zds.records().view(), zds.targets().view()));
                 let pz: Array2<f64> = m.predict(zds.records());
-                let mut fin = true;
+                let mut fin = Flags::new();
                 let mut e = json!({"ev": "unseen", "st": shape(&tz.records().view()), "su": shape(&tz.targets().view()), "sy": shape(&pz.view()),
                     "t": mat(&tz.records().view(), &mut fin), "u": mat(&tz.targets().view(), &mut fin), "y": mat(&pz.view(), &mut fin)});
-                e["fin"] = json!(fin);
+                fin.stamp(&mut e);
                 $ev.push(e);
             }
         }
@@ -201,22 +220,22 @@ fn run_svd(inp: &Value, ds: &DatasetBase<Array2<f64>, Array2<f64>>, zds: &Datase
         Ok(m) => {
             ev.push(fit_event(Ok(())));
             let (xw, yw) = m.weights();
-            let mut fin = true;
+            let mut fin = Flags::new();
             let mut e = json!({"ev": "model", "sxw": shape(&xw.view()), "syw": shape(&yw.view()),
                 "xw": mat(&xw.view(), &mut fin), "yw": mat(&yw.view(), &mut fin)});
-            e["fin"] = json!(fin);
+            fin.stamp(&mut e);
             ev.push(e);
             let tr = m.transform(DatasetBase::new(ds.records().view(), ds.targets().view()));
-            let mut fin = true;
+            let mut fin = Flags::new();
             let mut e = json!({"ev": "transform", "st": shape(&tr.records().view()), "su": shape(&tr.targets().view()),
                 "t": mat(&tr.records().view(), &mut fin), "u": mat(&tr.targets().view(), &mut fin)});
-            e["fin"] = json!(fin);
+            fin.stamp(&mut e);
             ev.push(e);
             let tz = m.transform(DatasetBase::new(zds.records().view(), zds.targets().view()));
-            let mut fin = true;
+            let mut fin = Flags::new();
             let mut e = json!({"ev": "unseen", "st": shape(&tz.records().view()), "su": shape(&tz.targets().view()), "sy": json!([0, 0]),
                 "t": mat(&tz.records().view(), &mut fin), "u": mat(&tz.targets().view(), &mut fin), "y": json!([])});
-            e["fin"] = json!(fin);
+            fin.stamp(&mut e);
             ev.push(e);
         }
     }
@@ -230,14 +249,14 @@ fn run_equiv(inp: &Value, ev: &mut Vec<Value>) {
             match $fit {
                 Err(e) => {
                     let e: PlsError = e;
-                    ev.push(json!({"ev": "eq", "variant": $name, "ok": false, "err": err_tag(&e).0, "fin": true, "t": [], "w": []}));
+                    ev.push(json!({"ev": "eq", "variant": $name, "ok": false, "err": err_tag(&e).0, "fin": true, "nan": false, "t": [], "w": []}));
                 }
                 Ok(m) => {
                     let tr = m.transform(DatasetBase::new(ds.records().view(), ds.targets().view()));
-                    let mut fin = true;
+                    let mut fin = Flags::new();
                     let t = mat(&tr.records().view(), &mut fin);
                     let w = mat(&m.weights().0.view(), &mut fin);
-                    ev.push(json!({"ev": "eq", "variant": $name, "ok": true, "err": "none", "fin": fin, "t": t, "w": w}));
+                    ev.push(json!({"ev": "eq", "variant": $name, "ok": true, "err": "none", "fin": fin.fin, "nan": fin.nan, "t": t, "w": w}));
                 }
             }
         }};
